@@ -13,7 +13,8 @@ import (
 // ---- the script family: straight-line programs over globals ----
 
 type stmt struct {
-	K   string // def asg sel fail
+	K   string // def asg sel fail hid
+	N   int    // hid: shape of the block
 	Dst string
 	Var string // right-hand side: a global …
 	V   *TV    // … or a literal
@@ -29,6 +30,18 @@ func asgv(d, x string) stmt       { return stmt{K: "asg", Dst: d, Var: x} }
 func sel(d, k string, v *TV) stmt { return stmt{K: "sel", Dst: d, Key: k, V: v} }
 
 var failStmt = stmt{K: "fail"}
+
+// hid: a top-level block or loop that declares block-scoped variables only. They occupy global slots but are no
+// names of the Compiled; a top-level variable declared after them has a slot index above len(globalIndexes).
+func hid(shape int) stmt { return stmt{K: "hid", N: shape} }
+
+var hiddenShapes = []string{
+	"if true { t0 := 1 }",
+	"for i1 := 0; i1 < 2; i1++ { t1 := i1 }",
+	"for k2, v2 in [1, 2] { w2 := v2 }",
+	"if true { p3 := 1; if p3 { q3 := 2; for j3 := 0; j3 < 1; j3++ { r3 := j3 } } }",
+	"for v4 in {k: 1} { w4 := v4 }",
+}
 
 // Inputs are named a, b, m; scripts define out, x, y.
 var family = [][]stmt{
@@ -55,6 +68,13 @@ var family = [][]stmt{
 	{def("x", ti(1)), asgv("x", "a"), defv("out", "x")},
 	{def("x", &TV{K: "im", Keys: []string{"k"}, Kids: []*TV{&TV{K: "a", Kids: []*TV{ti(1)}}}}), asg("a", &TV{K: "y", S: []byte("hi")})},
 	{sel("a", "k", &TV{K: "a", Kids: []*TV{ti(1)}}), def("y", ti(2))},
+	// variables declared inside top-level blocks / loops BEFORE later top-level declarations
+	{hid(0), def("out", ti(1))},
+	{def("x", ti(1)), hid(1), defv("out", "a"), def("y", ts("s"))},
+	{hid(2), def("b", ti(7))},
+	{hid(3), hid(0), def("x", &TV{K: "m", Keys: []string{"k"}, Kids: []*TV{ti(1)}}), asgv("x", "a"), def("y", &TV{K: "a", Kids: []*TV{ti(2)}})},
+	{hid(1), sel("m", "k", ti(1)), def("y", ti(2)), hid(4), def("out", &TV{K: "ia", Kids: []*TV{ti(3)}})},
+	{hid(4), defv("out", "a"), failStmt, def("x", ti(1))},
 }
 
 func mutates(src []stmt) bool {
@@ -82,6 +102,8 @@ func srcText(src []stmt) string {
 			sb.WriteString(s.Dst + "." + s.Key + " = " + rhs + "\n")
 		case "fail":
 			sb.WriteString("1 + \"s\"\n")
+		case "hid":
+			sb.WriteString(hiddenShapes[s.N%len(hiddenShapes)] + "\n")
 		}
 	}
 	return sb.String()
@@ -103,6 +125,8 @@ func srcSexp(src []stmt) string {
 			parts = append(parts, "(sel "+lib.HexS(s.Dst)+" "+lib.HexS(s.Key)+" "+s.V.sexp()+")")
 		case "fail":
 			parts = append(parts, "(fail)")
+		case "hid":
+			parts = append(parts, "(hid "+lib.N(s.N)+")")
 		}
 	}
 	return "(" + strings.Join(parts, " ") + ")"
@@ -327,6 +351,9 @@ func (st *refState) do(o op) string {
 			env[n] = v
 		}
 		for _, t := range s.src {
+			if t.K == "hid" {
+				continue // block-scoped variables are no names of the Compiled
+			}
 			_, known := env[t.Dst]
 			if t.K == "def" && known {
 				return "(err (redeclared " + lib.HexS(t.Dst) + "))"
